@@ -17,6 +17,7 @@ checks_for() {
     C01-*) echo "C01 C02" ;;
     C15-finite*) echo "C15 C03" ;;
     C15-not*) echo "C15 C11" ;;
+    C15-bulkload-slots*) echo "C15 C14" ;;
     C09-compaction-takes*) echo "C09 C05" ;;
     C16-compaction-keys*) echo "C06" ;;
     C16-cancelled*) echo "C16" ;;
